@@ -11,10 +11,10 @@ CLAIMED = {
                 text="TLC enumerates exhaustively all small dependency graphs (2-3 services, tag and decorator edges, todo placeholders) with every scope assignment, checks the design invariant ScopeRuleSound on them, and prints for each the verdict and the <shared, contextual> pairs the specification demands; each configuration is run on the tool built from /repo and the Scope diagnostics are compared. Exhaustive within the stated bounds; beyond them only sampled.",
                 note="Trusted: TLC, the YAML concretiser, the report parser (attribution of the numbered error list by the printed per-rule counts), probe + fixtures for the run-time half (all histories up to length 3 of Get/GetInContext/GetTaggedBy over accepted 2-service (thorough 3-service) graphs, and the C02 build family)."),
     "C06": dict(level="model_checking", tech="TLA+ spec (Deps.tla) model-checked by TLC; every enumerated configuration replayed on the real tool",
-                text="TLC enumerates every way 8 reference sites (parameter chunk single/multi/after %%, constructor argument, call argument, field, decorator argument, for %param% and @service) can point at a declared, a todo or an undeclared name (undeclared names collide with names of the other namespace), plus all declared-set variations down to no parameters at all; expected <referrer, missing> pairs come from MissingParams/MissingServices; the tool's diagnostics must name exactly those.",
+                text="TLC enumerates every way 8 reference sites (parameter chunk single/multi/after %%, constructor argument, call argument, field, decorator argument, for %param% and @service) can point at a declared, a todo or an undeclared name (undeclared names collide with names of the other namespace), plus all declared-set variations down to no parameters at all; expected <referrer, missing> pairs come from MissingParams/MissingServices; the tool's diagnostics must name exactly those; random larger configurations (family ext); accepted configurations are compiled and no Get / GetParam may fail with 'does not exist'.",
                 note="Trusted: TLC, concretiser, report parser. The run-time consequence (no 'does not exist' from an accepted container) is checked by the Container families."),
     "C07": dict(level="model_checking", tech="TLA+ spec (Deps.tla) model-checked by TLC; every enumerated digraph replayed on the real tool; reported cycles checked to be closed walks of the spec's edge relation",
-                text="TLC enumerates all digraphs on 2-3 services, all 512 reference digraphs on 3 parameters, and all carry/request/decorator constellations with one tag and one or two decorators (tag named like a service); OnCycle from the specification decides accept/reject; every reported cycle must be a closed walk over the specification's edges and every service/parameter on a cycle must be shown.",
+                text="TLC enumerates all digraphs on 2-3 services, all 512 reference digraphs on 3 parameters, and all carry/request/decorator constellations with one tag and one or two decorators (tag named like a service); OnCycle from the specification decides accept/reject; every reported cycle must be a closed walk over the specification's edges and every service/parameter on a cycle must be shown; seeded random larger graphs (self loops, overlapping cycles, name collisions) go through the same specification (family ext); accepted configurations are compiled and must report no circular dependencies and terminate.",
                 note="Trusted: TLC, concretiser, report parser, cycle-line parser."),
     "C16": dict(level="model_checking", tech="TLA+ spec (Deps.tla OutputDiag with flags) model-checked by TLC; every (configuration, flag set) replayed on the real tool and the four runs compared with the spec and with each other",
                 text="For every configuration of the defect-subset family X and the reference families N/M and each of the four flag sets: accepted iff the specification leaves no non-ignored diagnostic; non-ignored error lists identical to the run without flags; ignored rule silent; output sha256 identical whenever accepted without flags. FlagsOnlyNarrow is checked by TLC on the model.",
@@ -38,10 +38,10 @@ CLAIMED = {
                 text="Every attribute overridden by a later file (both orders, one and two attributes, three files, repeated identical entries, the empty file), rich configurations cut into ordered pieces over seven layouts of files and -i patterns where glob order and lexical order of cleaned paths differ; 13824 triples for associativity on the model.",
                 note="Trusted: TLC, concretiser (also writes explicit empty collections)."),
     "C11": dict(level="model_checking", tech="TLA+ recognisers per grammar position (Grammar.tla) written from the documentation; every symbol string up to the bound enumerated by TLC and placed in every YAML site of its position; flagged keys compared; plus subsets of simultaneous defects",
-                text="Eight positions (name, ident, import, func, type, value, decorator tag, argument forms) x 23 YAML sites, exhaustive up to length 4 (thorough 5-6) over position-specific alphabets; candidates disagreeing in a batch are re-run alone; all subsets of up to 3 of 21 structural defect kinds (same key, different keys, different compile stages) must be reported completely; todo exemption.",
+                text="Eight positions (name, ident, import, func, type, value, decorator tag, argument forms) x 23 YAML sites, exhaustive up to length 4 (thorough 5-6) over position-specific alphabets; candidates disagreeing in a batch are re-run alone; all subsets of up to 3 of 21 structural defect kinds (same key, different keys, different compile stages) must be reported completely; todo exemption; about 3000 replacements of a node of a complete document by a YAML node of an incompatible kind (MC_Confusion) must be rejected.",
                 note="Trusted: TLC, one concrete instantiation per symbol class. Getter-specific rules are decided by C13's family."),
     "C02": dict(level="model_checking", tech="TLA+ run-time semantics (Container.tla: Build = cache lookup, creation, fields, calls/withers, decorators, cache store) explored by TLC; every history replayed on the compiled generated container linked with the real runtime; object graphs compared up to identity renaming",
-                text="TLC enumerates all choice vectors differing from a base service in at most two of: creation method (constructor, local constructor, error-returning constructor, by-value constructor, package variable, &composite, composite, type-only value/pointer, todo), two argument positions x argument form (int, uint64, float, bool, null, plain/padded strings, strings that look like other literals, @service, !tagged, !value, $gontainer, %param% of each type, multi-chunk, %%, function call, failing), fields (order, unexported), call/wither sequences, scope, decorators, getter; the expected object graph is computed by Container.tla; the probe reports the real graph.",
+                text="TLC enumerates all choice vectors differing from a base service in at most two of: creation method (constructor, local constructor, error-returning constructor, by-value constructor, package variable, &composite, composite, type-only value/pointer, todo), two argument positions x argument form (int, uint64, float, bool, null, plain/padded strings, strings that look like other literals, @service, !tagged, !value, $gontainer, %param% of each type, multi-chunk, %%, function call, failing), fields (order, unexported), call/wither sequences, scope, decorators, getter; the expected object graph is computed by Container.tla; the probe reports the real graph. Plus families forms (every documented syntax form), lits (every literal type) and ext (seeded random configurations of 5-8 services with 25-operation histories over three contexts).",
                 note="Trusted: TLC, concretiser, probe + fixture universe, canonicalisation of identities. Configurations the tool rejects / whose output does not compile are unobservable here (C11/C01)."),
     "C04": dict(level="model_checking", tech="TLA+ run-time semantics (Container.tla TaggedOrder/Decorate) + Merge.tla, explored by TLC; every configuration (split over 1-3 files) replayed on the compiled container",
                 text="Exhaustive over three tagged services x priority assignments (absent, negative, equal, large) x second-tag carry bits x eight decorator sequences x 1/2/3-file splits; compares !tagged slices, GetTaggedBy order, decorator chains with payload <tag, service, object> and declared arguments; TaggedSorted and SplitInvariant are checked by TLC on the model.",
@@ -56,7 +56,7 @@ CLAIMED = {
                 text="32 configurations (every subset of two parameters and two services marked todo, todo services with inert attributes, an alias parameter, a counted function parameter) x every history of length 3 (thorough 4) over nine operations; results, documented error texts, object graphs and function invocation counters (zero after construction) are compared; TodoFails and LazyParams are checked by TLC on the model.",
                 note="Trusted: as C02."),
     "C10": dict(level="fault_enumeration", tech="TLA+ state machine of the build pipeline (Pipeline.tla) model-checked by TLC over fault/defect/flag/output-path scenarios; every scenario replayed on the real command; every run's own step report validated as a trace against the spec (Trace_Pipeline)",
-                text="TLC explores Pipeline.tla over scenarios = outcome per -i pattern (no match, invalid glob, one/two good files, directory, unparsable YAML, wrong node kind, same file twice) x defect-class sets x flags x state of the -o path (absent, existing, missing directory, is a directory, below a regular file), checking ExitIff, Untouched, CountMatch, OneFailLast, InOrder, WriteLast on all states. Each scenario is realised in a private directory and run in-process (a sample as a real process); exit status, failing step, rule statuses, numbered-list length and a before/after digest of the whole directory are compared; all runs are validated by TLC as traces.",
+                text="TLC explores Pipeline.tla over scenarios = outcome per -i pattern (no match, invalid glob, one/two good files, directory, unparsable YAML, wrong node kind, same file twice) x defect-class sets x flags x state of the -o path (absent, existing, missing directory, is a directory, below a regular file), checking ExitIff, Untouched, CountMatch, OneFailLast, InOrder, WriteLast on all states; TLAPS additionally proves (35 obligations, re-checked on every run) that the contract is an inductive invariant for every scenario and error bound. Each scenario is realised in a private directory and run in-process (a sample as a real process); exit status, failing step, rule statuses, numbered-list length and a before/after digest of the whole directory are compared; all runs are validated by TLC as traces.",
                 note="Trusted: TLC, scenario realisation, report parser, directory snapshots. Faults that need a non-root user or a full disk are not injected."),
     "C18": dict(level="model_checking", tech="TLA+ spec of the gate (Version.tla) enumerated by TLC over the (B, V) grid; every pair replayed in-process and, for v-prefixed / non-semver builds, on binaries linked with -X main.version=B",
                 text="Exhaustive grid of majors x minors x patches x {release, prerelease, +build, both} for B and V, non-semver builds, v-prefixed builds, absent and ten malformed V forms; verdict class (accept / version diagnostic / parse error) must equal Gate(B, V). PatchIrrelevant is checked by TLC on the model.",
@@ -65,7 +65,7 @@ CLAIMED = {
                 text="One input, nothing to enumerate: two (thorough: three) generations of build -> regenerate -> install on a scratch copy of the working tree, digests compared modulo the version comment line; the trace is accepted by TLC only if every regeneration equals the checked-in file.",
                 note="Trusted: the Go toolchain, sha256, the Makefile's self-compile patterns."),
     "C20": dict(level="model_checking", tech="TLA+ model of the runtime's critical sections as used by generated code (ContainerConc.tla) model-checked over all interleavings of small instances; recorded concurrent runs of the real generated container (race detector on, events numbered under the per-entry lock) validated by TLC against Trace_Conc.tla",
-                text="Design: ConstructedOnce, EvaluatedOnce, ContextIsolation, SharedAgreed, MutualExclusion, NoDeadlock over every interleaving of 2-3 goroutines on a shared / contextual / non_shared chain with a parameter; a parameter cycle deadlocks (negative control). Code: model-enumerated graphs x scopes and hand-made configurations (multi-chunk patterns, env functions, derived contextual scope, tags, decorators, getters) x 4/16(/64) goroutines x repeated runs under -race; a race report or a rejected trace is a violation.",
+                text="Design: ConstructedOnce, EvaluatedOnce, ContextIsolation, SharedAgreed, MutualExclusion, NoDeadlock over every interleaving of 2-3 goroutines on a shared / contextual / non_shared chain with a parameter; a parameter cycle deadlocks (negative control). Code: model-enumerated graphs x scopes and hand-made configurations (multi-chunk patterns, env functions, derived contextual scope, tags, decorators, getters) x 4/16(/64) goroutines x repeated runs under -race; a race report or a rejected trace is a violation. Small runs (2-3 goroutines, 2 operations each) are additionally validated against the fine-grained actions of ContainerConc with silent steps (Trace_ContainerConc): TLC must find an interleaving that explains the observed order of constructions and returns and the observed instance identities.",
                 note="Interleavings of the real program are sampled, not enumerated; the locking lives in the external runtime and is modelled, not verified."),
 }
 
